@@ -38,7 +38,7 @@ r = run(f'patch -p1 -s < {patch}')
 meta['patch_applies'] = r.returncode == 0
 if not meta['patch_applies']:
     print('PATCH FAILED', r.stdout, r.stderr)
-r = run('/venv/bin/python -m pytest -q -p no:cacheprovider -x -q tests 2>&1 | tail -1' .replace(' -x', ''))
+r = run('/venv/bin/python -m pytest -q -p no:cacheprovider tests 2>&1 | tail -3')
 m = re.search(r'(\d+) passed', r.stdout)
 meta['tests_passed'] = int(m.group(1)) if m else None
 m = re.search(r'(\d+) failed', r.stdout)
